@@ -13,6 +13,66 @@ from .. import tlc, local, pool, hoistgen, inputs
 PID = 'C06'
 
 
+def typed_literal_modules(py2):
+    """modules in which two spellings of a literal with the same text but another type occur often enough to be hoisted: the alias must be bound to an
+    IDENTICAL value, so each spelling needs its own alias (on 2.x 'x' == u'x' and they hash alike; on 3.x '' vs b'' never compare equal)"""
+    out = []
+    pairs = [("'Hello world'", "u'Hello world'"), ("'Hello world'", "b'Hello world'"), ("u'Hello world'", "b'Hello world'"), ("''", "u''"), ("'Hello world'", "'Hello world'")]
+    for fut in (False, True):
+        for a, b in pairs:
+            for na, nb in ((3, 3), (5, 1), (1, 5), (4, 4)):
+                for place in ('module', 'function'):
+                    items = [a] * na + [b] * nb
+                    body = 'values = [%s]\nprint([(type(v).__name__, v) for v in values])\n' % ', '.join(items)
+                    if place == 'function':
+                        body = 'def f():\n    values = [%s]\n    return [(type(v).__name__, v) for v in values]\nprint(f())\n' % ', '.join(items)
+                    src = ('from __future__ import unicode_literals\n' if fut else '') + body
+                    out.append(('typed:%s:%s+%s:%d+%d:%s' % ('fut' if fut else 'plain', a, b, na, nb, place), src))
+    return out
+
+
+def typed_literal_section(args, rep):
+    """minify and run under 2.7 and two 3.x interpreters; Trace_Behave.tla compares what input and output print"""
+    versions = [v for v in (('2.7', '3.12') if args.tier == 'quick' else ('2.7', '3.6', '3.8', '3.12', '3.13')) if v in available_versions()]
+    records = []
+    srcs = {}
+    for v in versions:
+        mods = typed_literal_modules(v == '2.7')
+        reqs = [{'op': 'minify', 'id': n, 'src_b64': inputs.b64(t.encode()), 'as_bytes': False, 'opts': {}} for n, t in mods]
+        res = pool.run_requests(v, reqs, timeout=300)
+        ex = []
+        for n, t in mods:
+            a = res.get(n, {})
+            if not a.get('compiles') or 'worker_error' in a:
+                continue
+            ex.append({'op': 'exec', 'id': 'in:' + n, 'src_b64': inputs.b64(t.encode())})
+            if a.get('outcome') == 'return':
+                ex.append({'op': 'exec', 'id': 'out:' + n, 'src_b64': a['out_b64']})
+        er = pool.run_requests(v, ex, timeout=300)
+        for n, t in mods:
+            a = res.get(n, {})
+            if not a.get('compiles') or 'worker_error' in a or 'in:' + n not in er:
+                continue
+            rid = '%s|%s' % (n, v)
+            srcs[rid] = (t, a, v)
+            i, o = er['in:' + n], er.get('out:' + n, {})
+            records.append({'id': rid, 'outcome': a.get('outcome', 'raise:?'), 'obs0': i.get('stdout', '') + '|' + i.get('exc', ''), 'stages': [],
+                            'obs_final': o.get('stdout', '') + '|' + o.get('exc', '')})
+            if a.get('out_b64') and a['out_b64'] != inputs.b64(t.encode()):
+                rep.nontrivial.add(sha(rid))
+    rep.evaluations += len(records)
+    verdicts, judged = tlc.judge('Trace_Behave', 'Trace_Behave.cfg', records, tag='C06t')
+    rep.add_judged(judged)
+    import base64
+    for rid, vd in sorted(verdicts.items()):
+        t, a, v = srcs[rid]
+        rep.violation(key=rid + '|' + vd[0], clause='c06:alias-bound-to-a-value-of-another-type' if vd[0].startswith('c01:minified') else vd[0],
+                      what='%s\n%s--- output:\n%s' % (rid, t, base64.b64decode(a.get('out_b64', '')).decode('utf-8', 'replace')),
+                      replay={'kind': 'minify', 'version': v, 'src_b64': inputs.b64(t.encode()), 'opts': {}})
+    rep.extra['typed_literal_runs'] = len(records)
+    return len(records)
+
+
 def run(args, rep):
     rng = random.Random(args.seed)
     cfg = 'MC_Hoist4.cfg' if args.tier == 'quick' else 'MC_Hoist5.cfg'
@@ -68,6 +128,7 @@ def run(args, rep):
             out312 = hoistgen.run(keep[rid]['_out'])
             if same311 and out312.rsplit('#', 1)[1] in ('NameError', 'UnboundLocalError'):
                 d18.add(rid)
+    n_typed = typed_literal_section(args, rep)
     for rid, v in sorted(verdicts.items()):
         if v[0].startswith('machinery:'):
             raise MachineryError('%s on %s: %s' % (v[0], rid, keep[rid].get('msg')))
